@@ -16,8 +16,9 @@ pub fn materialise(lines: &J, fin: i64) -> Vec<u8> {
         let mut body = format!("c{}\t0\t1", chrom);
         if body_len > body.len() {
             body.push('\t');
+            // multi-byte characters in the extra column: a probe may land inside one
             while body.len() < body_len {
-                body.push('x');
+                if body.len() + 2 <= body_len { body.push('é'); } else { body.push('x'); }
             }
         }
         assert_eq!(body.len(), body_len, "line cannot be materialised with this length");
